@@ -18,9 +18,12 @@ import (
 
 	sms "github.com/hujm2023/go-sms-protocol"
 	"github.com/hujm2023/go-sms-protocol/cmpp"
+	"github.com/hujm2023/go-sms-protocol/cmpp/cmpp20"
 	dc "github.com/hujm2023/go-sms-protocol/datacoding"
 	g "github.com/hujm2023/go-sms-protocol/datacoding/gsm7encoding"
 	"github.com/hujm2023/go-sms-protocol/logger"
+	"github.com/hujm2023/go-sms-protocol/sgip"
+	"github.com/hujm2023/go-sms-protocol/smgp"
 	"github.com/hujm2023/go-sms-protocol/smpp"
 	"pgregory.net/rapid"
 
@@ -115,6 +118,10 @@ func exec(op Op) string {
 			pr = sms.SMPP
 			list = []dc.ProtocolDataCoding{dc.SMPP_CODING_UCS2, dc.SMPP_CODING_GSM7_PACKED, dc.SMPP_CODING_GSM7_UNPACKED, dc.SMPP_CODING_ASCII, dc.SMPP_CODING_Latin1}
 		}
+		if op.U&1 == 1 {
+			// candidate lists as callers build them: with repeats, and with the original coding named again
+			list = append(list, list[int(op.U>>1)%len(list)], list[int(op.U>>5)%len(list)])
+		}
 		parts, act, err := sms.NewBatchDataCodingEncoder().Protocol(pr).Content(text, byte(op.U)).DataCodings(list).Build(ctx)
 		return digest(append(parts, []byte(fmt.Sprint(act, err)))...)
 	case "content":
@@ -135,7 +142,21 @@ func exec(op Op) string {
 	case "msgid":
 		a, b, c, d, e, f, gg := cmpp.SplitMsgID(op.U)
 		s := cmpp.MsgID2String(op.U)
-		return digest([]byte(fmt.Sprint(a, b, c, d, e, f, gg, s, cmpp.MsgIDString2Uint64(s), cmpp.CombineMsgID(a, b, c, d, e, f, gg))))
+		bad := cmpp.MsgIDString2Uint64(s[:len(s)/2]) + cmpp.MsgIDString2Uint64("") + cmpp.MsgIDString2Uint64("not an id") // failing parses in between
+		return digest([]byte(fmt.Sprint(a, b, c, d, e, f, gg, s, cmpp.MsgIDString2Uint64(s), cmpp.CombineMsgID(a, b, c, d, e, f, gg), bad)))
+	case "names":
+		// the name tables: command ids (named, defined-but-unnamed, arbitrary), statuses, headers
+		id := uint32(op.U)
+		if op.U>>32&3 == 0 {
+			id = uint32(op.U>>34) % 0x20 // small ids: the defined range, partly without a name
+		}
+		if op.U>>36&1 == 1 {
+			id |= 0x80000000
+		}
+		return digest([]byte(fmt.Sprint(cmpp.CommandID(id).String(), smgp.CommandID(id).String(), sgip.CommandID(id).String(), smpp.CMDId(id).String(),
+			cmpp.Header{CommandID: cmpp.CommandID(id), SequenceID: id}.String(), smpp.Header{ID: smpp.CMDId(id), Status: smpp.CMDStatus(id % 0x120)}.String(),
+			sgip.Header{CommandID: sgip.CommandID(id)}.String(), smpp.CMDStatus(id%0x500).Error(), sgip.RespStatus(id).String(), smgp.Status(id%200).String(),
+			cmpp.ConnectRespResultString(uint8(id)), cmpp20.SubmitRespResultString(uint8(id)), dc.CMPPDataCoding(id%20).String(), dc.SMPPDataCoding(id%100).Priority())))
 	case "ucs2":
 		text := string(vk.UnHex(op.Text))
 		a, _ := cmpp.Utf8ToUcs2(text)
@@ -151,13 +172,15 @@ func exec(op Op) string {
 
 // runCase: sequential oracle first, then the concurrent execution from a barrier.
 func runCase(c Case) (v *vk.Violation, overlapped bool) {
+	// The concurrent execution comes FIRST and the run-alone reference afterwards: package-level state that
+	// is initialised lazily (a memo table, a cache) is then touched for the first time by racing goroutines,
+	// not warmed up by the reference run.
 	want := make([][]string, len(c.G))
-	for i, ops := range c.G {
-		want[i] = make([]string, len(ops))
-		for j, op := range ops {
-			want[i][j] = exec(op)
+	defer func() {
+		if v != nil {
+			return
 		}
-	}
+	}()
 	old := runtime.GOMAXPROCS(c.Procs)
 	defer runtime.GOMAXPROCS(old)
 	got := make([][]string, len(c.G))
@@ -184,6 +207,13 @@ func runCase(c Case) (v *vk.Violation, overlapped bool) {
 	}
 	close(barrier)
 	wg.Wait()
+	runtime.GOMAXPROCS(old)
+	for i, ops := range c.G {
+		want[i] = make([]string, len(ops))
+		for j, op := range ops {
+			want[i][j] = exec(op)
+		}
+	}
 	for i := range c.G {
 		for k := range c.G {
 			if i != k && starts[i] < ends[k] && starts[k] < ends[i] {
@@ -225,7 +255,7 @@ var fixedSlotTypes = []string{"cmpp20.PduSubmit", "cmpp20.PduDeliver", "cmpp20.P
 var overflowText = strings.Repeat("a", 17200)
 
 var opGen = rapid.Custom(func(t *rapid.T) Op {
-	k := rapid.SampledFrom([]string{"encode", "encode", "encodebad", "decode", "decode", "string", "string", "split", "batch", "content", "gsm7", "msgid", "ucs2", "period"}).Draw(t, "k")
+	k := rapid.SampledFrom([]string{"encode", "encode", "encodebad", "decode", "decode", "string", "string", "split", "batch", "content", "gsm7", "msgid", "names", "names", "ucs2", "period"}).Draw(t, "k")
 	op := Op{K: k, U: rapid.Uint64().Draw(t, "u"), Yield: rapid.IntRange(0, 3).Draw(t, "yield") == 0}
 	switch k {
 	case "encodebad":
